@@ -93,3 +93,14 @@ Theorem C04_deps_exact_falsy_task_refuted : exists h falsy root fuel,
 Proof. exact deps_exact_falsy_task_refuted. Qed.
 Print Assumptions C04_deps_exact_falsy_task_refuted.
 
+(* copy_dependencies puts the mark of another task on a configuration: the walk of the unchanged tree stops at
+   that mark and never looks at the parameters (h); read as what it means (`uncopy`: own parameters + the copied
+   mark) the task given through the parameters is reachable and collected - the walk with fixes/C04-3.diff *)
+Theorem C04_copied_mark_hides_refuted : exists h cp root fuel,
+  n_sub (get h root) = None /\
+  collect h fuel root [] = Some [1%nat] /\
+  reachv (uncopy cp h) (VRef root) 0%nat /\
+  collect (uncopy cp h) fuel root [] = Some [0%nat; 1%nat].
+Proof. exact copied_mark_hides_refuted. Qed.
+Print Assumptions C04_copied_mark_hides_refuted.
+
